@@ -288,7 +288,7 @@ class SupervisedOPF(OPF):
             preds = self.predict(X_val)
 
             acc = g.opf_accuracy(Y_val, preds)
-            if acc > max_acc:
+            if t == 0 or acc > max_acc:
                 max_acc = acc
                 best_opf = copy.deepcopy(self)
                 best_t = t
@@ -331,7 +331,8 @@ class SupervisedOPF(OPF):
             )
 
             if delta < 0.0001 or t == n_iterations:
-                self = best_opf
+                # Restores the best classifier into the object itself
+                self.subgraph = best_opf.subgraph
 
                 logger.info(
                     "Best classifier has been learned over iteration %d.", best_t + 1
